@@ -1,2 +1,299 @@
-// placeholder
+// Contract harnesses for the built-in Trace / Finalize impls of src/trace.rs (C17), Kani part:
+// per-position probe leaves count trace / finalize calls.  The contract of every container impl is
+//     trace(&c, ctx)   ==> each element position is traced exactly once, nothing else is reported
+//     finalize(&c)     ==> each element position is finalized exactly once
+// Fixed-size types (tuples 1..12, Option, Result, Box, ManuallyDrop, AssertUnwindSafe, RefCell,
+// arrays of the listed N) are complete for the listed instantiations; Vec / slice are bounded by length.
+// The parametric, length-unbounded statement for Option/Result/array/slice/Vec/tuples is the Verus part
+// (lib/verus_trace.py), run by the same check.
 use super::*;
+use crate::cc::verif_proofs as ccp;
+use crate::lists::verif_proofs as lp;
+use crate::verif::probes::Node;
+use crate::Cc;
+
+pub(crate) const NP: usize = 40;
+pub(crate) static mut TRACED: [u8; NP] = [0; NP];
+pub(crate) static mut FINALIZED: [u8; NP] = [0; NP];
+
+/// probe leaf with an identity
+pub(crate) struct Tick(pub u8);
+unsafe impl Trace for Tick {
+    fn trace(&self, _: &mut Context<'_>) {
+        unsafe { TRACED[self.0 as usize % NP] += 1 };
+    }
+}
+impl Finalize for Tick {
+    fn finalize(&self) {
+        unsafe { FINALIZED[self.0 as usize % NP] += 1 };
+    }
+}
+
+struct Lists {
+    root: LinkedList,
+    non_root: LinkedList,
+    queue: LinkedQueue,
+}
+fn lists() -> Lists {
+    Lists { root: lp::ll_from(None), non_root: lp::ll_from(None), queue: lp::q_from(None, None) }
+}
+fn forget_lists(l: Lists) {
+    core::mem::forget(l.root);
+    core::mem::forget(l.non_root);
+    core::mem::forget(l.queue);
+}
+/// trace `v` once with a counting context and finalize it once
+fn visit<T: Trace + ?Sized>(v: &T) {
+    let mut l = lists();
+    {
+        let mut ctx = Context::new(ContextInner::Counting { root_list: &mut l.root, non_root_list: &mut l.non_root, queue: &mut l.queue });
+        v.trace(&mut ctx);
+    }
+    v.finalize();
+    forget_lists(l);
+}
+/// exactly the positions 0..n were visited exactly once, and nothing else
+fn exactly(n: usize) -> (bool, bool) {
+    let mut t = true;
+    let mut f = true;
+    let mut i = 0;
+    while i < NP {
+        let want = if i < n { 1 } else { 0 };
+        unsafe {
+            if TRACED[i] != want {
+                t = false;
+            }
+            if FINALIZED[i] != want {
+                f = false;
+            }
+        }
+        i += 1;
+    }
+    (t, f)
+}
+fn reset() {
+    let mut i = 0;
+    while i < NP {
+        unsafe {
+            TRACED[i] = 0;
+            FINALIZED[i] = 0;
+        }
+        i += 1;
+    }
+}
+macro_rules! check {
+    ($n:expr, $t:literal, $f:literal) => {{
+        let (t, f) = exactly($n);
+        kani::assert(t, $t);
+        kani::assert(f, $f);
+        reset();
+    }};
+}
+
+//@ C17 | complete | deciding | feat=full,std | fn=Trace::trace,Finalize::finalize | timeout=900
+#[kani::proof]
+#[kani::unwind(42)]
+pub(crate) fn trace_tuples_1_to_12_each_position_once() {
+    visit(&(Tick(0),));
+    check!(1, "Trace::trace::tuple::post::each_position_traced_exactly_once", "Finalize::finalize::tuple::post::each_position_finalized_exactly_once");
+    visit(&(Tick(0), Tick(1)));
+    check!(2, "Trace::trace::tuple::post::each_position_traced_exactly_once", "Finalize::finalize::tuple::post::each_position_finalized_exactly_once");
+    visit(&(Tick(0), Tick(1), Tick(2)));
+    check!(3, "Trace::trace::tuple::post::each_position_traced_exactly_once", "Finalize::finalize::tuple::post::each_position_finalized_exactly_once");
+    visit(&(Tick(0), Tick(1), Tick(2), Tick(3)));
+    check!(4, "Trace::trace::tuple::post::each_position_traced_exactly_once", "Finalize::finalize::tuple::post::each_position_finalized_exactly_once");
+    visit(&(Tick(0), Tick(1), Tick(2), Tick(3), Tick(4)));
+    check!(5, "Trace::trace::tuple::post::each_position_traced_exactly_once", "Finalize::finalize::tuple::post::each_position_finalized_exactly_once");
+    visit(&(Tick(0), Tick(1), Tick(2), Tick(3), Tick(4), Tick(5)));
+    check!(6, "Trace::trace::tuple::post::each_position_traced_exactly_once", "Finalize::finalize::tuple::post::each_position_finalized_exactly_once");
+    visit(&(Tick(0), Tick(1), Tick(2), Tick(3), Tick(4), Tick(5), Tick(6)));
+    check!(7, "Trace::trace::tuple::post::each_position_traced_exactly_once", "Finalize::finalize::tuple::post::each_position_finalized_exactly_once");
+    visit(&(Tick(0), Tick(1), Tick(2), Tick(3), Tick(4), Tick(5), Tick(6), Tick(7)));
+    check!(8, "Trace::trace::tuple::post::each_position_traced_exactly_once", "Finalize::finalize::tuple::post::each_position_finalized_exactly_once");
+    visit(&(Tick(0), Tick(1), Tick(2), Tick(3), Tick(4), Tick(5), Tick(6), Tick(7), Tick(8)));
+    check!(9, "Trace::trace::tuple::post::each_position_traced_exactly_once", "Finalize::finalize::tuple::post::each_position_finalized_exactly_once");
+    visit(&(Tick(0), Tick(1), Tick(2), Tick(3), Tick(4), Tick(5), Tick(6), Tick(7), Tick(8), Tick(9)));
+    check!(10, "Trace::trace::tuple::post::each_position_traced_exactly_once", "Finalize::finalize::tuple::post::each_position_finalized_exactly_once");
+    visit(&(Tick(0), Tick(1), Tick(2), Tick(3), Tick(4), Tick(5), Tick(6), Tick(7), Tick(8), Tick(9), Tick(10)));
+    check!(11, "Trace::trace::tuple::post::each_position_traced_exactly_once", "Finalize::finalize::tuple::post::each_position_finalized_exactly_once");
+    visit(&(Tick(0), Tick(1), Tick(2), Tick(3), Tick(4), Tick(5), Tick(6), Tick(7), Tick(8), Tick(9), Tick(10), Tick(11)));
+    check!(12, "Trace::trace::tuple::post::each_position_traced_exactly_once", "Finalize::finalize::tuple::post::each_position_finalized_exactly_once");
+}
+
+//@ C17 | complete | deciding | feat=full,std | fn=Trace::trace,Finalize::finalize | timeout=900
+#[kani::proof]
+#[kani::unwind(42)]
+pub(crate) fn trace_option_result_and_deref_wrappers() {
+    visit(&Some(Tick(0)));
+    check!(1, "Trace::trace::Option::post::some_traced_once", "Finalize::finalize::Option::post::some_finalized_once");
+    visit(&None::<Tick>);
+    check!(0, "Trace::trace::Option::post::none_reports_nothing", "Finalize::finalize::Option::post::none_reports_nothing");
+    visit(&Ok::<Tick, Tick>(Tick(0)));
+    check!(1, "Trace::trace::Result::post::ok_traced_once", "Finalize::finalize::Result::post::ok_finalized_once");
+    visit(&Err::<Tick, Tick>(Tick(0)));
+    check!(1, "Trace::trace::Result::post::err_traced_once", "Finalize::finalize::Result::post::err_finalized_once");
+    visit(&Err::<(Tick, Tick), (Tick, Tick, Tick)>((Tick(0), Tick(1), Tick(2))));
+    check!(3, "Trace::trace::Result::post::err_traced_once", "Finalize::finalize::Result::post::err_finalized_once");
+    let b = alloc::boxed::Box::new((Tick(0), Tick(1)));
+    visit(&b);
+    check!(2, "Trace::trace::Box::post::content_traced_once", "Finalize::finalize::Box::post::content_finalized_once");
+    core::mem::forget(b);
+    let m = core::mem::ManuallyDrop::new(Tick(0));
+    visit(&m);
+    check!(1, "Trace::trace::ManuallyDrop::post::content_traced_once", "Finalize::finalize::ManuallyDrop::post::content_finalized_once");
+    let a = core::panic::AssertUnwindSafe((Tick(0), Some(Tick(1))));
+    visit(&a);
+    check!(2, "Trace::trace::AssertUnwindSafe::post::content_traced_once", "Finalize::finalize::AssertUnwindSafe::post::content_finalized_once");
+}
+
+//@ C17 | complete | deciding | feat=full,std | fn=Trace::trace,Finalize::finalize | timeout=900
+#[kani::proof]
+#[kani::unwind(42)]
+pub(crate) fn trace_refcell_borrowed_and_unborrowed() {
+    let c = RefCell::new((Tick(0), Tick(1)));
+    visit(&c);
+    check!(2, "Trace::trace::RefCell::post::content_traced_once_when_not_borrowed", "Finalize::finalize::RefCell::post::content_finalized_once_when_not_borrowed");
+    // mutably borrowed: reports nothing (trace and finalize)
+    {
+        let g = match c.try_borrow_mut() {
+            Ok(g) => g,
+            Err(_) => {
+                kani::assume(false);
+                unreachable!()
+            }
+        };
+        visit(&c);
+        check!(0, "Trace::trace::RefCell::post::reports_nothing_while_mutably_borrowed", "Finalize::finalize::RefCell::post::reports_nothing_while_mutably_borrowed");
+        core::mem::forget(g);
+    }
+    // immutably borrowed: trace needs exclusive access => nothing; finalize only reads => once
+    let d = RefCell::new(Tick(0));
+    {
+        let g = match d.try_borrow() {
+            Ok(g) => g,
+            Err(_) => {
+                kani::assume(false);
+                unreachable!()
+            }
+        };
+        let mut l = lists();
+        {
+            let mut ctx = Context::new(ContextInner::Counting { root_list: &mut l.root, non_root_list: &mut l.non_root, queue: &mut l.queue });
+            d.trace(&mut ctx);
+        }
+        forget_lists(l);
+        kani::assert(unsafe { TRACED[0] } == 0, "Trace::trace::RefCell::post::reports_nothing_while_borrowed");
+        core::mem::forget(g);
+        reset();
+    }
+}
+
+//@ C17 | bounded: arrays N in {0,1,2,32}; Vec and slice lengths 0,1,4 | deciding | feat=full,std | fn=Trace::trace,Finalize::finalize | timeout=900
+#[kani::proof]
+#[kani::unwind(42)]
+pub(crate) fn trace_arrays_slices_vecs_each_element_once() {
+    let a0: [Tick; 0] = [];
+    visit(&a0);
+    check!(0, "Trace::trace::sequence::post::each_element_traced_exactly_once", "Finalize::finalize::sequence::post::each_element_finalized_exactly_once");
+    visit(&[Tick(0)]);
+    check!(1, "Trace::trace::sequence::post::each_element_traced_exactly_once", "Finalize::finalize::sequence::post::each_element_finalized_exactly_once");
+    visit(&[Tick(0), Tick(1)]);
+    check!(2, "Trace::trace::sequence::post::each_element_traced_exactly_once", "Finalize::finalize::sequence::post::each_element_finalized_exactly_once");
+    let a32: [Tick; 32] = core::array::from_fn(|i| Tick(i as u8));
+    visit(&a32);
+    check!(32, "Trace::trace::sequence::post::each_element_traced_exactly_once", "Finalize::finalize::sequence::post::each_element_finalized_exactly_once");
+    let s: &[Tick] = &a32[..4];
+    visit(s);
+    check!(4, "Trace::trace::sequence::post::each_element_traced_exactly_once", "Finalize::finalize::sequence::post::each_element_finalized_exactly_once");
+    let e: &[Tick] = &a32[..0];
+    visit(e);
+    check!(0, "Trace::trace::sequence::post::each_element_traced_exactly_once", "Finalize::finalize::sequence::post::each_element_finalized_exactly_once");
+    let mut v: alloc::vec::Vec<Tick> = alloc::vec::Vec::new();
+    visit(&v);
+    check!(0, "Trace::trace::sequence::post::each_element_traced_exactly_once", "Finalize::finalize::sequence::post::each_element_finalized_exactly_once");
+    v.push(Tick(0));
+    visit(&v);
+    check!(1, "Trace::trace::sequence::post::each_element_traced_exactly_once", "Finalize::finalize::sequence::post::each_element_finalized_exactly_once");
+    v.push(Tick(1));
+    v.push(Tick(2));
+    v.push(Tick(3));
+    visit(&v);
+    check!(4, "Trace::trace::sequence::post::each_element_traced_exactly_once", "Finalize::finalize::sequence::post::each_element_finalized_exactly_once");
+    core::mem::forget(v);
+    core::mem::forget(a32);
+}
+
+//@ C17 | complete | deciding | feat=full,std | fn=Trace::trace,Finalize::finalize | timeout=900
+#[kani::proof]
+#[kani::unwind(42)]
+pub(crate) fn trace_two_level_nestings() {
+    let n1 = Some(alloc::boxed::Box::new((Tick(0), [Tick(1), Tick(2)])));
+    visit(&n1);
+    check!(3, "Trace::trace::nested::post::each_leaf_traced_exactly_once", "Finalize::finalize::nested::post::each_leaf_finalized_exactly_once");
+    core::mem::forget(n1);
+    let n2: RefCell<Option<Result<Tick, [Tick; 2]>>> = RefCell::new(Some(Err([Tick(0), Tick(1)])));
+    visit(&n2);
+    check!(2, "Trace::trace::nested::post::each_leaf_traced_exactly_once", "Finalize::finalize::nested::post::each_leaf_finalized_exactly_once");
+    let n3 = (Some(Tick(0)), None::<Tick>, Ok::<Tick, Tick>(Tick(1)), RefCell::new(Tick(2)));
+    visit(&n3);
+    check!(3, "Trace::trace::nested::post::each_leaf_traced_exactly_once", "Finalize::finalize::nested::post::each_leaf_finalized_exactly_once");
+    let n4: [Option<(Tick, Tick)>; 2] = [Some((Tick(0), Tick(1))), None];
+    visit(&n4);
+    check!(2, "Trace::trace::nested::post::each_leaf_traced_exactly_once", "Finalize::finalize::nested::post::each_leaf_finalized_exactly_once");
+}
+
+/// "reports every owned Cc exactly once and nothing else", with REAL Cc elements: the target's tracing
+/// counter rises by exactly the number of Cc values the container owns; Weak / PhantomData report nothing.
+//@ C17 C01 | complete | deciding | feat=full,std | fn=Trace::trace,Finalize::finalize | timeout=900
+#[kani::proof]
+#[kani::unwind(42)]
+pub(crate) fn trace_containers_of_real_cc_count_each_pointer_once() {
+    let h = ccp::mk_node(0);
+    let x = ccp::raw_of(&h);
+    let c1 = ccp::clone_from_registry(0).unwrap();
+    let c2 = ccp::clone_from_registry(0).unwrap();
+    let c3 = ccp::clone_from_registry(0).unwrap();
+    // x is being counted by a collection: marked InQueue, tracing counter 0, counter 4
+    let (_, c0) = ccp::words_of(x);
+    ccp::set_words_of(x, 0xc000, c0);
+    crate::state::state(|s| crate::state::verif_proofs::set_flags(s, true, false, false));
+    let owner = (Some(c1), [Ok::<Cc<Node>, ()>(c2)], RefCell::new(alloc::boxed::Box::new(c3)), core::marker::PhantomData::<Cc<Node>>, 7u8);
+    let mut l = lists();
+    {
+        let mut ctx = Context::new(ContextInner::Counting { root_list: &mut l.root, non_root_list: &mut l.non_root, queue: &mut l.queue });
+        owner.trace(&mut ctx);
+    }
+    kani::assert(ccp::words_of(x) == (0xc000 | 3, c0), "Trace::trace::containers::post::every_owned_cc_counted_exactly_once_nothing_else");
+    forget_lists(l);
+    core::mem::forget((owner, h));
+}
+
+/// Weak, Cleaner and Cleanable never report what they point to.
+//@ C17 C08 C10 | complete | deciding | feat=full | fn=Trace::trace,Finalize::finalize,Cleaner::register | timeout=900
+#[cfg(feature = "cleaners")]
+#[kani::proof]
+#[kani::unwind(42)]
+pub(crate) fn trace_weak_cleaner_cleanable_report_nothing() {
+    let h = ccp::mk_node(0);
+    let x = ccp::raw_of(&h);
+    let w = h.downgrade();
+    let (_, c0) = ccp::words_of(x);
+    ccp::set_words_of(x, 0xc000, c0);
+    let cleaner = crate::cleaners::Cleaner::new();
+    let cleanable = cleaner.register(|| {});
+    crate::state::state(|s| crate::state::verif_proofs::set_flags(s, true, false, false));
+    let n0 = (crate::verif::ghost::g().n_trace, crate::verif::ghost::g().n_fin);
+    let owner = (w, cleaner, cleanable);
+    let mut l = lists();
+    {
+        let mut ctx = Context::new(ContextInner::Counting { root_list: &mut l.root, non_root_list: &mut l.non_root, queue: &mut l.queue });
+        owner.trace(&mut ctx);
+    }
+    owner.finalize();
+    kani::assert(ccp::words_of(x) == (0xc000, c0), "Trace::trace::Weak::post::reports_nothing");
+    kani::assert(lp::ll_first(&l.root).is_none() && lp::ll_first(&l.non_root).is_none() && lp::q_first(&l.queue).is_none(), "Trace::trace::Cleaner::post::reports_nothing");
+    kani::assert((crate::verif::ghost::g().n_trace, crate::verif::ghost::g().n_fin) == n0, "Trace::trace::Weak::post::reports_nothing");
+    forget_lists(l);
+    crate::state::state(|s| crate::state::verif_proofs::set_flags(s, false, false, false));
+    core::mem::forget((owner, h));
+}
